@@ -138,11 +138,11 @@ CLAIMED = {
          "wrong round's set (fixed in /repo 05eda0b; regression input). With the repaired quorum and under the locally checkable distance bound (gap_runb: the node never divides an event more than "
          "six rounds above its last consensus round) on both nodes started from the same genesis set, PROVED under dynamic membership: the validator-set tables agree "
          "(C01_tables_agree_dynamic, no premise on the tables), rounds, fame, famous-witness sets and round-received agree (C01_consensus_values_agree_dynamic; abstract voting loop "
-         "with per-round set sizes) and the k-th delivered blocks agree in index, round-received, transactions and internal transactions (C01_agreement_dynamic_gap); not proved for "
-         "dynamic membership: equality of block timestamp, frame hash and peers. The oracle evaluates agreement on real cores after every action of random, lagging-view, split-vote (coin rounds, lone decider) "
+         "with per-round set sizes) and delivered blocks with the same position agree in index, round-received, timestamp, transactions, internal transactions and peers, the shorter chain "
+         "being a prefix of the longer (C01_agreement_dynamic_gap, C01_agreement_prefix_dynamic_gap); not proved for dynamic membership: equality of the frame record. The oracle evaluates agreement on real cores after every action of random, lagging-view, split-vote (coin rounds, lone decider) "
          "and dynamic-membership histories; every observable of every node is compared with the model after every action",
-         "42 theorems, no axioms; premises: event id determines the event, signature tie-break values pairwise distinct, fork-free universe; static membership for "
-         "the full seven-field block theorems; same genesis + distance bound on both runs for the dynamic theorems (ledger content of every delivered block); block timestamp / frame / peers under dynamic membership: oracle + correspondence",
+         "44 theorems, no axioms; premises: event id determines the event, signature tie-break values pairwise distinct, fork-free universe; static membership for "
+         "the full seven-field block theorems; same genesis + distance bound on both runs for the dynamic theorems (six of the seven block fields); frame record under dynamic membership: oracle + correspondence",
          "Coq invariant proofs over operation lists (about 20000 lines for the consensus core) + refutation / regression witnesses + gossip-history correspondence + prefix-consistency oracle + pinned fork replays"),
  "C03": ("PROVED in Coq (per-event mode, static membership, fork-free attempt sets): two topological insertion orders of one attempt set (valid and invalid "
          "attempts, possibly on two nodes) admit exactly the same events (C03_admission_order_independent) and give every event the same observables "
